@@ -5,6 +5,7 @@ import (
 	"encoding/json"
 	"fmt"
 	"math"
+	"reflect"
 	"strconv"
 	"strings"
 	"time"
@@ -228,6 +229,13 @@ func c18State(r *fw.Rand) (*protocol.ResolutionModel, map[string]interface{}) {
 	rm.CanonicalReference = fw.Pick(r, []string{"", "uEiCanon1", "uEiCanon2"})
 	if r.Bool() {
 		rm.EquivalentReferences = []string{"hl:uEiA:x", "hl:uEiB:y"}
+		if r.Chance(1, 3) {
+			// a reference listed twice, or the canonical reference listed among the equivalent ones: reported as given
+			rm.EquivalentReferences = append(rm.EquivalentReferences, "hl:uEiA:x")
+			if rm.CanonicalReference != "" {
+				rm.EquivalentReferences = append(rm.EquivalentReferences, rm.CanonicalReference)
+			}
+		}
 	}
 	rm.PublishedOperations = c18OpList(r, "pub")
 	rm.UnpublishedOperations = c18OpList(r, "unpub")
@@ -298,7 +306,27 @@ func c18Case(c *fw.Case, combo int, cache map[int]*c18Tr) func() {
 	id, _ := info[document.IDProperty].(string)
 	c.Count("transforms", 1)
 	c.Evals(1)
+	docBefore := deepCopy(rm.Doc)
 	res, err := tr.TransformDocument(rm, info)
+	if err == nil {
+		// transforming leaves the state as it was, and transforming the same state again gives the same result
+		if !reflect.DeepEqual(docBefore, deepCopy(rm.Doc)) {
+			c.Failf("state-document-modified-by-transformation", map[string]interface{}{"internal_document": doc, "diff": describeDiff(docBefore, rm.Doc)}, "TransformDocument modified the state's document (%s)", describeDiff(docBefore, rm.Doc))
+			return nil
+		}
+		first, _ := json.Marshal(res)
+		if res2, err2 := tr.TransformDocument(rm, info); err2 != nil {
+			c.Failf("second-transformation-differs", map[string]interface{}{"internal_document": doc, "err": err2.Error()}, "the second transformation of the same state failed: %v", err2)
+			return nil
+		} else if second, _ := json.Marshal(res2); !bytes.Equal(first, second) {
+			var g1, g2 interface{}
+			json.Unmarshal(first, &g1)
+			json.Unmarshal(second, &g2)
+			c.Failf("second-transformation-differs", map[string]interface{}{"internal_document": doc, "diff": describeDiff(g1, g2)}, "the second transformation of the same state differs from the first (%s)", describeDiff(g1, g2))
+			return nil
+		}
+		c.Count("states-transformed-twice", 1)
+	}
 	w := map[string]interface{}{"internal_document": doc, "options": map[string]interface{}{"base": withBase, "methodContext": methodCtx, "keyContextOverride": withKeyCtx, "includePublished": incPub, "includeUnpublished": incUnpub},
 		"info": info}
 	if err != nil {
